@@ -21,6 +21,21 @@ MCShapes3 == { [mode |-> md, NS |-> 2, NA |-> 2, B |-> 3, tab |-> MCTables[1], r
 
 ASSUME PrintT(<<"TABLES", ToJson(MCTables)>>)
 
+\* negative controls (the invariants are not vacuous): a learner that forgets the (1 - done) factor violates DoneMasks /
+\* TerminalIsReward, one that bootstraps from the online table violates Bootstraps
+TargetNoMask ==
+  /\ phase = "target"
+  /\ y' = [i \in 1..B |-> 4 * batch[i].r + g2 * V2(batch[i].s2)]
+  /\ phase' = "loss" /\ act' = [op |-> "target"]
+  /\ UNCHANGED <<Fixed, acc, k>>
+NextNoMask == TargetNoMask \/ AccRow \/ Finish
+TargetOnline ==
+  /\ phase = "target"
+  /\ y' = [i \in 1..B |-> 4 * batch[i].r + g2 * V2In(mode, [tab EXCEPT !.t1 = tab.q1, !.t2 = tab.q2], batch[i].s2) * (1 - batch[i].d)]
+  /\ phase' = "loss" /\ act' = [op |-> "target"]
+  /\ UNCHANGED <<Fixed, acc, k>>
+NextOnline == TargetOnline \/ AccRow \/ Finish
+
 \* M2: one line per case with the result the specification demands
 DumpCase == phase = "done" =>
   PrintT(<<"CASE", ToJson([mode |-> mode, g2 |-> g2, tid |-> tab.id, rows |-> batch, y |-> y, acc |-> acc])>>)
